@@ -91,12 +91,14 @@ def dispatch (st : DState) (toks : List String) : DState × String :=
   | ["S", "ctflatown"] => (st, "ok")
   | ["S", "attributed"] => (st, "ok")
   | ["S", "jran"] => (st, "ok")
+  | ["S", "jattr"] => (st, "ok")
   | ["S", "det-interleaved"] => (st, "same")
   | ["S", "wf-any-history"] => (st, "ok")
   | ["S", "solstring-sequence"] => (st, "ok")
   | ["S", "pops-same"] => (st, "same")
   | ["S", "tstore-static"] => (st, "ok")
   | "S" :: "stdwork" :: _ => (st, "ok")
+  | "S" :: "stdgas" :: _ => (st, "ok")
   | ["S", "jp"] => (st, "ok")
   | ["S", "gas"] => (st, "ok")
   | ["S", "node"] => (st, "ok")
